@@ -571,7 +571,229 @@ def r17_7(prog: Program, rep):
            and any(isinstance(x, ast.Raise) for x in ast.walk(f.node)), f"resolved: {sorted(resolved)}", f.node.lineno)
 
 
+def _absent_label(test: ast.AST, var: str):
+    """For a test on `var` alone: the edge label on which nothing is at the path (`var` is None / falsy)."""
+    t = norm(test)
+    if t in (var, f"{var} is not None", f"{var} != None"):
+        return "false"
+    if t in (f"not {var}", f"{var} is None", f"{var} == None"):
+        return "true"
+    return None
+
+
+def _is_symlink_call(c: ast.Call) -> bool:
+    fn = c.func
+    names = {x.id for x in ast.walk(fn) if isinstance(x, ast.Name)} | {x.attr for x in ast.walk(fn) if isinstance(x, ast.Attribute)}
+    return bool(names & {"symlink", "symlink_fn"}) and len(c.args) >= 2
+
+
+def r17_2s(prog: Program, rep):
+    """The symlink arm of build_file_from_blob: whatever the lstat found at the target is removed BEFORE the link is made.
+    With core.symlinks=false the `symlink_fn` fallback writes the link text with open(dst, "wb"); an attempt-first order
+    (`try: symlink() except FileExistsError: remove; symlink()`) lets that fallback write through an existing link."""
+    f = prog.func("dulwich/index.py", "build_file_from_blob")
+    g = cfg_of(prog, f)
+    links = [i for i, n in g.nodes.items() for c in node_calls(n) if _is_symlink_call(c)]
+    if not links:
+        raise AnalysisError("build_file_from_blob: symlink creation call not found")
+    removes = [i for i, n in g.nodes.items() for c in node_calls(n)
+               if (dotted(c.func) in ("os.unlink", "os.remove") or callee_name(c) == "_remove_file_with_readonly_handling")]
+    stat_vars = {v for i, n in g.nodes.items() if n.kind == "stmt" and isinstance(n.ast, ast.Assign) and isinstance(n.ast.value, ast.Call)
+                 and dotted(n.ast.value.func) == "os.lstat" for v in stored_names_of(n.ast)}
+    if not stat_vars:
+        raise AnalysisError("build_file_from_blob: lstat of the target not found")
+    absent = {}
+    for i, n in g.nodes.items():
+        if n.kind == "test":
+            for v in stat_vars:
+                lab = _absent_label(n.ast, v)
+                if lab:
+                    absent[i] = lab
+
+    def ok(a, b, l):
+        return not (a in absent and l == absent[a])
+    bad = must_pass(g, links, removes, edge_ok=ok)
+    rep.ob("R17.2", "dulwich/index.py", f.qual, "in the symlink arm, what lstat found at the target is removed before the link is created",
+           not bad, "the link-creating call (which may be the core.symlinks=false fallback that open()s the target for writing) is "
+           "reachable with something still at the target path: an existing symlink there is written through",
+           g.nodes[(bad or links)[0]].line)
+
+
+def stored_names_of(s: ast.AST) -> set[str]:
+    return {x.id for x in ast.walk(s) if isinstance(x, ast.Name) and isinstance(x.ctx, ast.Store)}
+
+
+def _strip_derived(g, rd, at: int, name: str, depth: int = 0) -> bool:
+    """`name` at node `at` may hold `sep.join(parts[strip:])` (directly or through a copy)."""
+    for d in rd[at].get(name, ()):
+        n = g.nodes[d]
+        a = n.ast
+        if not isinstance(a, (ast.Assign, ast.AnnAssign)) or a.value is None:
+            continue
+        v = a.value
+        if isinstance(v, ast.Call) and isinstance(v.func, ast.Attribute) and v.func.attr == "join" and v.args and \
+                isinstance(v.args[0], ast.Subscript) and isinstance(v.args[0].slice, ast.Slice) and v.args[0].slice.lower is not None \
+                and "strip" in norm(v.args[0].slice.lower):
+            return True
+        if isinstance(v, ast.Name) and depth < 3 and _strip_derived(g, rd, d, v.id, depth + 1):
+            return True
+    return False
+
+
+def r17_8(prog: Program, rep):
+    """SAME PATH in patch application.  Every path that apply_patches / _apply_rename_or_copy validates, joins to the
+    repository root or uses as an index key has had the `-p<strip>` components removed; otherwise the path that was
+    validated is not the path that the rename clean-up later removes (which strips, and is not validated again)."""
+    m = prog.module("dulwich/patch.py")
+    n = 0
+    for q in ("_apply_rename_or_copy", "apply_patches"):
+        f = m.funcs.get(q)
+        if f is None:
+            raise AnalysisError(f"patch.{q} not found")
+        if "strip" not in [a.arg for a in f.node.args.args + f.node.args.kwonlyargs]:
+            continue
+        g = cfg_of(prog, f)
+        rd = reaching_defs(g)
+        for i, nd in g.nodes.items():
+            for c in node_calls(nd):
+                arg = None
+                if callee_name(c) == "_validate_patch_target" and len(c.args) >= 3:
+                    arg = c.args[2]
+                elif dotted(c.func) == "os.path.join" and len(c.args) == 2 and "path" in norm(c.args[0]):
+                    arg = c.args[1]
+                if not isinstance(arg, ast.Name):
+                    continue
+                n += 1
+                ok = _strip_derived(g, rd, i, arg.id)
+                rep.ob("R17.8", m.rel, f.qual, f"`{norm(c, 60)}`: the path has had the -p components stripped", ok,
+                       f"`{arg.id}` is used as a work-tree path without the `-p<strip>` prefix removed, while sibling sites strip: the "
+                       f"path validated here is not the path the rename clean-up removes", nd.line)
+    if n < 3:
+        raise AnalysisError(f"expected >= 3 validated/joined patch paths in functions taking `strip`, found {n}")
+
+
+def r17_9(prog: Program, rep):
+    """_is_ntfs_dotgit: after the `.git` / `git~1` stem only the run of dots and spaces that FOLLOWS THE STEM is skipped,
+    and what comes next must be the end or `:`.  Accepted idioms: a character loop that returns on the first byte that is
+    not dot/space; lstrip of the tail; a regular expression.  Rejected: rstrip/strip of the tail (removes the run at the
+    wrong end: `.git :x` and `.git.:$DATA` get through)."""
+    m = prog.module("dulwich/index.py")
+    f = m.funcs.get("_is_ntfs_dotgit")
+    if f is None:
+        raise AnalysisError("index._is_ntfs_dotgit not found")
+    calls = [c for c in ast.walk(f.node) if isinstance(c, ast.Call) and isinstance(c.func, ast.Attribute)]
+    wrong = [c for c in calls if c.func.attr in ("rstrip", "strip") and c.args and isinstance(c.args[0], ast.Constant)
+             and isinstance(c.args[0].value, bytes) and set(c.args[0].value) <= set(b". ") and c.args[0].value]
+    right = [c for c in calls if c.func.attr == "lstrip"]
+    loops = [l for l in ast.walk(f.node) if isinstance(l, (ast.While, ast.For))
+             and any(isinstance(x, ast.Return) for x in ast.walk(l))]
+    regex = [c for c in calls if c.func.attr in ("match", "fullmatch", "search")]
+    colon = any(isinstance(x, ast.Constant) and x.value == b":" for x in ast.walk(f.node)) or regex
+    if not (wrong or right or loops or regex):
+        raise AnalysisError("_is_ntfs_dotgit: tail handling idiom not recognised (loop / lstrip / regex expected)")
+    rep.ob("R17.9", m.rel, f.qual, "only the dots/spaces directly after the .git stem are skipped before the `:`/end test",
+           not wrong and bool(colon),
+           (f"`{norm(wrong[0], 60)}` removes dots/spaces at the END of the tail, not the run after the stem: `.git :stream` and "
+            f"`.git.:$DATA` are no longer recognised as .git") if wrong else "no test for the `:` stream marker",
+           wrong[0].lineno if wrong else f.node.lineno)
+
+
+def _symlink_replacers(prog: Program) -> set[str]:
+    """Helpers that remove a symlink found at their path parameter: body tests islink / S_ISLNK of the parameter and
+    unlinks it (e.g. patch._replace_symlink)."""
+    out = set()
+    for rel in SCOPE:
+        if rel not in prog.modules:
+            continue
+        for q, f in prog.modules[rel].funcs.items():
+            ps = [a.arg for a in f.node.args.args]
+            if not ps or "#" in q or "." in q:
+                continue
+            src_tests = [c for c in ast.walk(f.node) if isinstance(c, ast.Call) and (dotted(c.func) == "os.path.islink" or callee_name(c) == "S_ISLNK")]
+            rm = [c for c in ast.walk(f.node) if isinstance(c, ast.Call) and (dotted(c.func) in ("os.unlink", "os.remove") or
+                  callee_name(c) == "_remove_file_with_readonly_handling") and c.args and isinstance(c.args[0], ast.Name) and c.args[0].id == ps[0]]
+            writes = [c for c in ast.walk(f.node) if isinstance(c, ast.Call) and _open_write(c)]
+            if src_tests and rm and not writes and len(list(ast.walk(f.node))) < 120:
+                out.add(f.name)
+    return out
+
+
+def r17_10(prog: Program, rep):
+    """LEAF SYMLINK.  A validated work-tree path may still END in a symlink that an earlier checkout materialised
+    (`notes -> .git/hooks/pre-commit` resolves inside the work tree).  open(p, "wb") follows it.  Every write-mode open
+    of a work-tree path is therefore dominated by a decision that does NOT follow the link: a symlink replacer helper,
+    os.path.islink / lstat+S_ISLNK with removal on the link side, os.path.lexists (open only when nothing is there), or an
+    unconditional removal.  os.path.exists is not such a decision (it is False for a dangling link)."""
+    repl = _symlink_replacers(prog)
+    n = 0
+    for rel in ("dulwich/patch.py", "dulwich/sparse_patterns.py", "dulwich/index.py"):
+        m = prog.module(rel)
+        for q, f in m.funcs.items():
+            if "#" in q:
+                continue
+            opens = [c for c in ast.walk(f.node) if isinstance(c, ast.Call) and m.enclosing_func(c) is f and _open_write(c)
+                     and c.args and isinstance(c.args[0], ast.Name)]
+            if not opens:
+                continue
+            g = cfg_of(prog, f)
+            rd = reaching_defs(g)
+            keyvars = _index_key_loopvars(g, f)
+            params = [a.arg for a in f.node.args.args]
+            for oc in opens:
+                var = oc.args[0].id
+                at = g.nodes_containing(oc)
+                if not at:
+                    continue
+                at = at[0]
+                # is it a work-tree path?  (validated patch target, tree-path conversion, index-key join, or the blob writer's target)
+                wt = rel == "dulwich/index.py" and f.name == "build_file_from_blob" and var in params
+                for d in rd[at].get(var, ()):
+                    v = _def_value(g.nodes[d])
+                    if isinstance(v, ast.Call) and callee_name(v) in ("_validate_patch_target", "_checked_worktree_path", "_tree_to_fs_path"):
+                        wt = True
+                    if isinstance(v, ast.Call) and dotted(v.func) == "os.path.join" and v.args:
+                        pz = _strip_decode(v.args[-1])
+                        if isinstance(pz, ast.Name) and (pz.id in keyvars or any(
+                                isinstance(_def_value(g.nodes[dd]), ast.Call) and pz.id in keyvars for dd in rd[d].get(pz.id, ()))):
+                            wt = True
+                        if isinstance(pz, ast.Name) and any(k in norm(v) for k in keyvars):
+                            wt = True
+                if not wt:
+                    continue
+                n += 1
+
+                def on_var(c):
+                    return bool(c.args) and var in names_in(c.args[0])
+                guards, veto = set(), {}
+                for i, nd in g.nodes.items():
+                    for c in node_calls(nd):
+                        d = dotted(c.func) or ""
+                        if callee_name(c) in repl and on_var(c):
+                            guards.add(i)
+                        elif d in ("os.unlink", "os.remove") and on_var(c) or callee_name(c) == "_remove_file_with_readonly_handling" and on_var(c):
+                            guards.add(i)
+                        elif nd.kind == "test" and d == "os.path.islink" and on_var(c):
+                            guards.add(i)           # the link side is checked below (R17.2 does it for the blob writer)
+                        elif nd.kind == "test" and callee_name(c) == "S_ISLNK":
+                            guards.add(i)
+                        elif nd.kind == "test" and d == "os.path.lexists" and on_var(c):
+                            # open only where nothing is there: with the 'nothing there' edge cut, the open must be unreachable
+                            t = norm(nd.ast)
+                            veto[i] = "true" if t.startswith("not ") else "false"
+                bad = must_pass(g, [at], guards, edge_ok=lambda a, b, l: not (a in veto and l == veto[a]))
+                follows = [c for nd in g.nodes.values() if nd.kind == "test" for c in node_calls(nd) if dotted(c.func) == "os.path.exists" and on_var(c)]
+                rep.ob("R17.10", rel, f.qual, f"`{norm(oc, 50)}`: a symlink at the leaf is detected without following it (and replaced) before the write",
+                       not bad, f"`{var}` is validated component-wise but may END in a symlink materialised by an earlier checkout (e.g. -> .git/hooks/pre-commit, "
+                       f"which resolves inside the work tree); open(.., 'wb') follows it" + ("; os.path.exists() is False for a dangling link, so it does not protect"
+                                                                                           if follows else ""), oc.lineno)
+    if n < 4:
+        raise AnalysisError(f"expected >= 4 write-mode opens of work-tree paths in patch.py/sparse_patterns.py/index.py, found {n}")
+
+
 def run(prog: Program, rep, tier="quick"):
+    rep.rule("R17.10", "LEAF SYMLINK: every write-mode open of a work-tree path is dominated by a non-following symlink decision (replacer / islink / lstat / lexists); os.path.exists does not count")
+    rep.rule("R17.8", "patch application: every validated / joined path has had the -p components stripped (the validated path is the path acted on)")
+    rep.rule("R17.9", "_is_ntfs_dotgit skips only the dots/spaces that directly follow the stem (lstrip/loop idioms accepted, rstrip rejected)")
     rep.rule("R17.7", "containment of a resolved path is decided per path component (no os.path.commonprefix, no prefix test without separator)")
     rep.rule("R17.6", "verify_leading_dirs skips the lstat only for the leading run of verified components (accepted idioms enumerated)")
     rep.rule("R17.5", "transition helpers decide on the lstat result they are given; no symlink-following predicate on the leaf path")
@@ -594,6 +816,10 @@ def run(prog: Program, rep, tier="quick"):
     r17_5(prog, rep)
     r17_6(prog, rep)
     r17_7(prog, rep)
+    r17_2s(prog, rep)
+    r17_8(prog, rep)
+    r17_9(prog, rep)
+    r17_10(prog, rep)
     from sa.common import alias_guard
     alias_guard(prog, rep, "R17.1", {"validate_path", "verify_leading_dirs", "_tree_to_fs_path"})
     rep.floor("R17.1", 6)
